@@ -181,6 +181,7 @@ def run(ctx: RuleContext):
     ctx.sub(check_name_extraction_shape, ctx)
     ctx.sub(check_no_memo_between_dtype_and_verdict, ctx)
     ctx.sub(check_last_dotted_component, ctx)
+    ctx.sub(check_extraction_sources, ctx)
 
 
 FAMILY_RE = {
@@ -737,6 +738,42 @@ def check_name_extraction_shape(ctx):
             ctx.ok("C03.3", f.qualname, f"a constant dtype name: `{short(st, 70)}`")
         else:
             ctx.bad("C03.3", f, st, "the dtype name compared with the category is not derived from obj.dtype")
+
+
+def check_extraction_sources(ctx):
+    """C03.7 (precondition, no verdict of its own): which attributes of the array's dtype the name is read
+    from is value-level knowledge about the backends (numpy: `.type.__name__`; tensorflow:
+    `.as_numpy_dtype.__name__`; everything else: the dtype itself / its str / repr).  A name read from some
+    other attribute (`.name`, `.kind`, ...) agrees with the categories for some dtypes and not for others
+    (`datetime64[ns]`, `float32_ref`, `longlong`): that cannot be judged statically, so the check gives no
+    verdict instead of passing."""
+    m = ctx.model
+    f = m.func("_array_types._MetaAbstractArray.__instancecheck_str__")
+    known = {"type.__name__", "as_numpy_dtype.__name__", "type", "as_numpy_dtype", ""}
+    aliases = {"obj.dtype"}
+    for fn_ in region(m, f):
+        for st in walk_scope(fn_.node):
+            if isinstance(st, ast.Assign) and norm(st.value) in aliases:
+                for t in st.targets:
+                    if isinstance(t, ast.Name):
+                        aliases.add(t.id)
+    unknown = []
+    n = 0
+    for fn_ in region(m, f):
+        for x in ast.walk(fn_.node):
+            if isinstance(x, ast.Attribute) and isinstance(x.ctx, ast.Load):
+                txt = norm(x)
+                for al in aliases:
+                    if txt.startswith(al + "."):
+                        n += 1
+                        rest = txt[len(al) + 1:]
+                        if rest not in known and not any(k.startswith(rest + ".") for k in known):
+                            unknown.append(x)
+    ctx.counters["dtype_attribute_reads"] = n
+    if unknown:
+        raise AnalysisError(f"C03.7: the dtype name is (also) read from `{norm(unknown[0])}`, which is not one of the sources the rule knows "
+                            "(.type.__name__, .as_numpy_dtype.__name__, str/repr of the dtype): whether every backend's dtypes still get their documented name is value-level")
+    ctx.ok("C03.7", f.qualname, f"{n} reads of the array's dtype, all through .type.__name__ / .as_numpy_dtype.__name__ / the dtype itself")
 
 
 def check_last_dotted_component(ctx):
